@@ -93,6 +93,10 @@ def mask_from_face_indexes(
     fill_value = topology.sensible_fill_value
     data_vars = {}
 
+    # The face indexes may arrive in any order, a spatial index query is unordered.
+    # New indexes must be handed out in the existing order of the faces.
+    face_indexes = numpy.sort(face_indexes)
+
     def new_element_indexes(size: int, indexes: numpy.ndarray) -> numpy.ma.MaskedArray:
         new_indexes = numpy.full(
             (size,), fill_value=fill_value, dtype=topology.sensible_dtype)
